@@ -1,6 +1,22 @@
 # print types with the generator's own qualifier: nothing for the source package, the alias only for the destination package
 p="internal/mapper/match.go"
 s=open(p).read()
+old='''func qualifiedTypeName(t types.Type, alias string) string {
+	qualifier := func(pkg *types.Package) string {
+		if alias != "" {
+			return alias
+		}
+		if pkg == nil {
+			return ""
+		}
+		return pkg.Name()
+	}
+	return types.TypeString(t, qualifier)
+}
+
+'''
+assert old in s
+s=s.replace(old,"")
 s=s.replace('''f2.Type = qualifiedTypeName(f2.typ, g.flags.alias)''','''f2.Type = types.TypeString(f2.typ, g.qualifier)''')
 s=s.replace('''f1.Type = qualifiedTypeName(f1.typ, g.flags.alias)''','''f1.Type = types.TypeString(f1.typ, g.qualifier)''')
 open(p,"w").write(s)
